@@ -2,6 +2,7 @@
 from __future__ import annotations
 
 import itertools
+import os
 
 import networkx as nx
 import numpy as np
@@ -104,6 +105,9 @@ WORLDS = {
                              keys=dict(time="t", pos="loc", track="tid", lineage="lin")),
     "noseg-2d-renamed-given": dict(ndim=3, seg=False, scale=None, pos="single", extra=[], custom=True, ids="given",
                                    keys=dict(time="t", pos="loc", track="tid", lineage="lin")),
+    # tracks that went through save_tracks / load_tracks before the session starts
+    "noseg-2d-reloaded": dict(ndim=3, seg=False, scale=None, pos="single", extra=[], custom=True, ids="compute", reload=True),
+    "seg-2d-reloaded": dict(ndim=3, seg=True, scale=[1.0, 2.0, 0.75], pos="single", extra=["iou"], custom=False, ids="compute", reload=True),
     "noseg-3d": dict(ndim=4, seg=False, scale=[1.0, 2.0, 1.0, 0.75], pos="single", extra=[], custom=True, ids="compute"),
     "noseg-2d-axes": dict(ndim=3, seg=False, scale=None, pos="axes", extra=[], custom=True, ids="compute"),
     "seg-2d": dict(ndim=3, seg=True, scale=None, pos="single", extra=["iou"], custom=True, ids="compute"),
@@ -272,6 +276,18 @@ def build(w, seed) -> SolutionTracks:
     if w["custom"]:
         tracks.features["score"] = custom_feature("node")
         tracks.features["w"] = custom_feature("edge")
+    if w.get("reload"):
+        import pathlib
+        import shutil
+        import tempfile
+        from funtracks.import_export.internal_format import load_tracks, save_tracks
+        base = "/dev/shm" if os.path.isdir("/dev/shm") and os.access("/dev/shm", os.W_OK) else None
+        d = pathlib.Path(tempfile.mkdtemp(prefix="mcw_", dir=base))
+        try:
+            save_tracks(tracks, d)
+            tracks = load_tracks(d, seg_required=w["seg"], solution=True)
+        finally:
+            shutil.rmtree(d, ignore_errors=True)
     return tracks
 
 
